@@ -497,6 +497,70 @@ class World:
         self.fault("helper_call")
         self._event(op, out, None)
 
+    def op_sweep(self, op):
+        """Helper sweep: fn(n, s) for all n <= nmax, 1 <= s <= min(smax,
+        n - 1); every value is recorded like an individual call."""
+        _, fn, nmax, smax = op
+        lib()
+        h = hashlib.sha256()
+        count = 0
+        if fn.startswith("n_advance:"):
+            # forward steps of the binomial recursion that the schedules
+            # build from n_advance: store a checkpoint, advance i steps,
+            # reverse the rest with one unit less, come back
+            traj = fn.split(":", 1)[1]
+            nadv = sys.modules["checkpoint_schedules.multistage"].n_advance
+            memo = {}
+
+            def extra(n, sn):
+                if n == 1:
+                    return 0
+                sn = min(sn, n - 1)
+                key = (n, sn)
+                if key not in memo:
+                    i = int(nadv(n, sn, trajectory=traj))
+                    if not 1 <= i < n or (sn == 1 and i != n - 1):
+                        raise ValueError(f"n_advance({n}, {sn}) = {i}")
+                    memo[key] = i + extra(n - i, sn - 1) + extra(i, sn)
+                return memo[key]
+            import sys as _sys
+            old = _sys.getrecursionlimit()
+            _sys.setrecursionlimit(max(old, 4 * nmax + 200))
+            try:
+                for n in range(2, nmax + 1):
+                    for sn in range(1, min(smax, n - 1) + 1):
+                        try:
+                            out = ["val", n + extra(n, sn)]
+                        except Exception as e:      # noqa: BLE001
+                            out = ["raise", type(e).__name__, str(e)[:60]]
+                        self.calls.append((["call", fn, n, sn], out))
+                        h.update(repr(out).encode())
+                        count += 1
+            finally:
+                _sys.setrecursionlimit(old)
+            f = None
+        else:
+            mod = sys.modules["checkpoint_schedules.multistage" if fn ==
+                              "optimal_steps_binomial" else
+                              "checkpoint_schedules.mixed"]
+            f = getattr(mod, fn, None)
+        if f is not None:
+            for n in range(2, nmax + 1):
+                for sn in range(1, min(smax, n - 1) + 1):
+                    try:
+                        val = f(n, sn)
+                        val = [int(x) for x in val] if isinstance(
+                            val, tuple) else M.norm_arg(val)
+                        out = ["val", val]
+                    except Exception as e:          # noqa: BLE001
+                        out = ["raise", type(e).__name__]
+                    self.calls.append((["call", fn, n, sn], out))
+                    h.update(repr(out).encode())
+                    count += 1
+        self.fault("helper_call", count)
+        self.probe("helper_sweep_entries", count)
+        self._event(op, ["sweep", count, h.hexdigest()[:16]], None)
+
     def op_e3(self, op):
         """Macro op: a pre-emptive sub-world (engine E3).  Tasks become slots
         of this world so that the ordinary history checkers apply."""
